@@ -243,6 +243,57 @@ let olock_case id calls plan sched =
     | OThrown t -> Printf.sprintf "T%d" (int_of_nat t)) (fst !c).olog) in
   Printf.printf "OUT OLOCK %s views=%s log=%s\n" id views (if log = "" then "-" else log)
 
+(* ---- barrier: which path does wait() take?  (harness/c09_params.cpp, family wait_path)
+   programs: a = arrive(1) (token kept), w0 / w1 = wait(token, timeout <= 0 / > 0), aw0 / aw1 =
+   arrive_and_wait.  Order entries: R<t> = thread t runs (busy-wait timer not expired) until a poll
+   finds the phase unchanged or its program is finished; X<t> = one step of t in which the timer of
+   its busy wait has expired.  The trace of a thread is what hooks 906/907/908 of barrier::wait
+   show: 906.b wait entered (b = 1: busy wait first), 907.b blocking wait entered (b = 1: after a
+   timed-out busy wait), 908.b wait returns (b = 1: from the busy wait). *)
+let wpath_case id e0 progs sched =
+  let parr = Array.of_list (List.map (fun p ->
+    List.map (function "a" -> OArrive (S O) | "w0" -> OWait | "w1" -> OWaitBusy | "aw0" -> OArriveWait
+                     | _ -> OArriveWaitBusy) (split_on ',' p)) (split_on ';' progs)) in
+  let tn = Array.length parr in
+  let progf t = let i = int_of_nat t in if i < tn then parr.(i) else [] in
+  let c = ref (bar_init (nat_of_int e0), bar_locals progf) in
+  let traces = Array.make tn [] in
+  let add i x = traces.(i) <- x :: traces.(i) in
+  let is_spin = function BSpin _ -> true | _ -> false and is_poll = function BPoll _ -> true | _ -> false in
+  let one i o =
+    let t = nat_of_int i in
+    let before = snd !c t in
+    c := step b_tstep !c (t, o);
+    let after = snd !c t in
+    let p0 = before.pcb and p1 = after.pcb in
+    if is_spin p1 && not (is_spin p0) then add i "906.1";
+    if is_spin p0 && is_poll p1 then add i "907.1";
+    if is_poll p1 && not (is_spin p0) && not (is_poll p0) then (add i "906.0"; add i "907.0");
+    if is_spin p0 && p1 = BIdle then add i "908.1";
+    if is_poll p0 && p1 = BIdle then add i "908.0";
+    (* stutter: a poll that found the phase unchanged *)
+    before.pcb = after.pcb && List.length before.bprog = List.length after.bprog in
+  List.iter (fun e ->
+    if String.length e >= 2 then begin
+      let i = int_of_string (String.sub e 1 (String.length e - 1)) in
+      if i < tn then
+        if e.[0] = 'X' then ignore (one i (S O))
+        else begin
+          let fuel = ref 400 and go = ref true in
+          while !go && !fuel > 0 do
+            decr fuel;
+            let l = snd !c (nat_of_int i) in
+            if l.pcb = BIdle && l.bprog = [] then go := false
+            else if one i O then go := false
+          done
+        end
+    end) (split_on ',' sched);
+  let g = fst !c in
+  Printf.printf "OUT WPATH %s%s%s\n" id
+    (String.concat "" (List.init tn (fun i ->
+       Printf.sprintf " t%d=%s" i (if traces.(i) = [] then "-" else String.concat "," (List.rev traces.(i))))))
+    (if g.bad then " model_bad=1" else "")
+
 let () =
   try
     while true do
@@ -250,6 +301,7 @@ let () =
       match String.split_on_char ' ' line with
       | ["IN"; "BAR"; id; e0; _p; progs; sched] -> bar_case id (int_of_string e0) progs sched
       | ["IN"; "LSEQ"; id; count; ops] -> lseq_case id (int_of_string count) ops
+      | ["IN"; "WPATH"; id; e0; progs; sched] -> wpath_case id (int_of_string e0) progs sched
       | ["IN"; "OSEQ"; id; k; plan] -> oseq_case id (int_of_string k) plan
       | "IN" :: "ELOCK" :: id :: t :: rest ->
         let tn = int_of_string t in
